@@ -1,4 +1,5 @@
 """C03 HNF transformation matrix is unimodular and yields a basis of the integer kernel (number-theory-linear/src/hnf.rs)."""
+import lib
 from lib import line, Id, Case
 from props import hnf_common as H
 
@@ -27,6 +28,8 @@ CLAIM = dict(
 
 def has_kernel(a):
     return H.rank_q(a, len(a[0])) < len(a)
+
+PROFILES = ('debug', 'release')
 
 def cases(rng, tier):
     th = tier == 'thorough'
@@ -89,4 +92,6 @@ def cases(rng, tier):
         if rng.random() < 0.5 and a[j]: a[j] = a[j][:rng.randrange(len(a[j]))]
         else: a[j] = a[j] + [H.rand_entry(rng, 3) for _ in range(rng.randrange(1, 3))]
         out.append(Case('hnf_u_ker', line('hnf_u_ker', a), nontrivial=False, tag='edge-ragged-random'))
+    # a slice of the cases again on the release build of the implementation (wrapping arithmetic, debug assertions off)
+    out += lib.release_slice(out, rng, 0.1, mode_ops=())
     return out
